@@ -257,4 +257,29 @@ pub(crate) mod __verif {
         core::mem::forget((r, p));
         kani::cover!(x != y);
     }
+
+    // @obligation name=j5_character_escape_syntax_chars props=C18 fn=parse::Parser::consume_character_escape kind=complete domain="every code point 0..=0x10FFFF as the escaped character, unicode flag on and off" min_checks=100 w=2 timeout=900
+    // The parser's CharacterEscape: for each of the 14 syntax characters (and `/`), `\c` denotes the literal c in every mode
+    // and consumes exactly that character - the inverse of escape() (cv_escape); for every other code point the call
+    // returns Ok or Err without panicking.
+    #[kani::proof]
+    #[kani::unwind(4)]
+    #[kani::stub(std::hash::RandomState::new, fixed_random_state)]
+    fn j5_character_escape_syntax_chars() {
+        let c: u32 = kani::any();
+        kani::assume(c <= 0x10FFFF);
+        let unicode: bool = kani::any();
+        let flags = api::Flags { unicode, ..Default::default() };
+        let buf = [c];
+        let mut p = parser(&buf, flags);
+        let r = p.consume_character_escape();
+        let syntax = matches!(to_char_sat(c), '^' | '$' | '\\' | '.' | '*' | '+' | '?' | '(' | ')' | '[' | ']' | '{' | '}' | '|');
+        if syntax {
+            assert!(matches!(&r, Ok(x) if *x == c), "an escaped syntax character is that literal character");
+            assert!(p.peek().is_none(), "exactly the escaped character is consumed");
+        }
+        core::mem::forget((r, p));
+        kani::cover!(syntax && unicode);
+        kani::cover!(!syntax);
+    }
 }
